@@ -359,7 +359,9 @@ spif_ustr_dup(spif_ustr_t self)
     tmp = SPIF_ALLOC(ustr);
     memcpy(tmp, self, SPIF_SIZEOF_TYPE(ustr));
     if (self->s != (spif_charptr_t) NULL) {
-        tmp->s = (spif_charptr_t) STRDUP((const char *) SPIF_USTR_STR(self));
+        /* The duplicate reports the same capacity, so it must own as much. */
+        tmp->s = (spif_charptr_t) MALLOC(self->size);
+        memcpy(tmp->s, self->s, self->len + 1);
     }
     tmp->len = self->len;
     tmp->size = self->size;
